@@ -379,6 +379,16 @@ func (rw *rewriter) post(c *astutil.Cursor) bool {
 			return true
 		}
 		switch name {
+		case "(*sync.Once).Do", "sync.OnceFunc":
+			// no scheduling point inside a Once body: a task parked there would hold the Once's real mutex
+			n.Args[0] = rw.call("Atomic0", n.Args[0])
+			rw.counts["once-atomic"]++
+		case "sync.OnceValue":
+			n.Args[0] = rw.call("Atomic1", n.Args[0])
+			rw.counts["once-atomic"]++
+		case "sync.OnceValues":
+			n.Args[0] = rw.call("Atomic2", n.Args[0])
+			rw.counts["once-atomic"]++
 		case "(*golang.org/x/sync/errgroup.Group).Go":
 			c.Replace(rw.call("ErrgroupGo", rw.recvPtr(sel), rw.site(n), n.Args[0]))
 			rw.counts["errgroup-go"]++
